@@ -174,6 +174,9 @@ class World:
         ref = tuple(ref)
         if ref[0] == "scr": return self.screens[ref[1]]
         # (every other source object is falsy - an empty container-like object: a source is "anything", identified by equality / hash, not by its truth value)
+        if len(ref) > 1 and ref[1] == 2:
+            # a source identified by its value: a fresh, equal tuple at every use (registered with one object, signals carry another)
+            return tuple(["value-source", int(ref[1])])
         if ref not in self.srcs:
             falsy = len(ref) > 1 and isinstance(ref[1], int) and ref[1] % 2 == 1
             self.srcs[ref] = type("Src", (), {"__len__": lambda s_: 0} if falsy else {})()
